@@ -23,8 +23,10 @@
    Slice 6 adds flow parameters: named / positional / default binding (create_flow_instance + _start_flow), the arguments
    carried by every flow event, the parameter comparison that decides whether an activation re-uses a reference instance,
    and `$x = await f` (the return_value member of the Finished event).
-   NOT yet modelled (programs using them are outside the fragment): explicit FinishFlow / StopFlow events, global
-   variables, events written as members of a flow / action constructor.
+   Slice 7 adds the internal events FinishFlow / StopFlow sent by a flow (`send StopFlow(flow_id="f")`), addressed by flow id
+   (all instances whose arguments include the given ones) or by instance uid.
+   NOT yet modelled (programs using them are outside the fragment): global variables, events written as members of a
+   flow / action constructor, `send $ref.Stop()`.
 
    The program is the REAL compiler output (FlowConfig.elements exported as JSON by
    harness/colang2.export_sm): P below.  One TLA+ step = one run_to_completion call (macro step),
@@ -667,6 +669,26 @@ ProcessEvent(S0, event, actionable) ==
       srcK   == IF isStart THEN UidToInst(S0, ArgVal(event.args, "source_flow_instance_uid")) ELSE 0
       childAct == isStart /\ srcK # 0 /\ Fl(S0, srcK).fid = sfid
       reuse  == isStart /\ ref # 0 /\ ~childAct
+      \* FinishFlow / StopFlow: by instance uid (only a started instance), or by flow id for every instance whose arguments
+      \* include the given ones (in the order of their creation)
+      isEnd  == event.name \in {"FinishFlow", "StopFlow"}
+      Inactive(f) == f.status \in {"WAITING", "STOPPED", "FINISHED", "GONE"}
+      extra  == SelectSeq(event.args, LAMBDA a : a[1] \notin {"flow_id", "deactivate", "source_flow_instance_uid", "source_head_uid"})
+      deact  == "deactivate" \in ArgKeys(event.args) /\ Truthy(ArgVal(event.args, "deactivate"))
+      Incl(f) == \A i \in 1..Len(extra) : extra[i][1] \in ArgKeys(f.args) /\ ArgVal(f.args, extra[i][1]) = extra[i][2]
+      EndOne(T, q, byUid) == IF event.name = "FinishFlow" THEN FinishFlow(T, q, event.scores, IF byUid THEN FALSE ELSE deact)
+                             ELSE AbortFlow(T, q, event.scores, IF byUid THEN Fl(T, q).activated > 0 ELSE deact)
+      RECURSIVE EndAll(_, _, _)
+      EndAll(T, q, loops) == IF q > Len(S0.flows) THEN [S |-> T, loops |-> loops]
+                             ELSE IF Fl(T, q).status # "GONE" /\ <<"s", Fl(T, q).fid>> = ArgVal(event.args, "flow_id") /\ Incl(Fl(T, q))
+                               THEN EndAll(EndOne(T, q, FALSE), q + 1, loops \cup {Fl(T, q).loop})
+                             ELSE EndAll(T, q + 1, loops)
+      endR   == IF ~isEnd THEN [S |-> S0, loops |-> {}]
+                ELSE IF "flow_instance_uid" \in ArgKeys(event.args)
+                  THEN LET q == UidToInst(S0, ArgVal(event.args, "flow_instance_uid")) IN
+                       IF q # 0 /\ ~Inactive(Fl(S0, q)) THEN [S |-> EndOne(S0, q, TRUE), loops |-> {Fl(S0, q).loop}] ELSE [S |-> S0, loops |-> {}]
+                ELSE IF "flow_id" \in ArgKeys(event.args) THEN EndAll(S0, 1, {})
+                ELSE [S |-> S0, loops |-> {}]
       event1 == IF isStart /\ ref # 0 /\ childAct THEN [event EXCEPT !.args = ArgSet(@, "source_flow_instance_uid", <<"uid", Fl(S0, ref).uid>>)] ELSE event
       S1 == IF reuse
               THEN LET T1 == [S0 EXCEPT !.flows[ref].activated = @ + 1, !.flows[srcK].children = Append(@, ref)]
@@ -676,8 +698,9 @@ ProcessEvent(S0, event, actionable) ==
               THEN S0        \* the restart of an activated flow that was deactivated while the restart was pending: dropped
             ELSE IF isStart
               THEN AddInstanceA(S0, sfid, ArgVal(event.args, "flow_hierarchy_position")[2], ArgVal(event.args, "flow_instance_uid")[2], event.args)
+            ELSE IF isEnd THEN endR.S
             ELSE S0
-      sc == ScoreCands(S1, event1, Candidates(S1, event1), [S |-> S1, matching |-> <<>>, failing |-> <<>>, handled |-> IF reuse THEN {<<"all", 0>>} ELSE {}])
+      sc == ScoreCands(S1, event1, Candidates(S1, event1), [S |-> S1, matching |-> <<>>, failing |-> <<>>, handled |-> IF reuse THEN {<<"all", 0>>} ELSE endR.loops])
       unhandled == activeLoops \ sc.handled
       S2 == IF <<"all", 0>> \notin sc.handled /\ unhandled # {} /\ event1.name # "UnhandledEvent"
               THEN Push(sc.S, Ev("UnhandledEvent", ArgUpdate(event1.args, << <<"event1", <<"s", event1.name>>>>, <<"loop_ids", <<"loops", unhandled>>>> >>),
